@@ -925,6 +925,19 @@ def gen_malformed(rng):
         if rng.random() < 0.3:
             del kw['spline_order']
             kw['n_splines'] = rng.choice([2, 3, 4])
+        elif rng.random() < 0.4:
+            # list-valued sizes (what set_params can leave behind): Python compares two lists lexicographically and
+            # refuses list > int
+            form = rng.choice(['ll', 'll', 'li', 'il', 'l2'])
+            a, b = rng.choice([3, 8, 30]), rng.choice([3, 8, 30])
+            if form == 'll':
+                kw['n_splines'], kw['spline_order'] = [a], [b]
+            elif form == 'li':
+                kw['n_splines'], kw['spline_order'] = [a], b
+            elif form == 'il':
+                kw['n_splines'], kw['spline_order'] = a, [b]
+            else:
+                kw['n_splines'], kw['spline_order'] = [a, rng.choice([1, 9])], [b, rng.choice([1, 9])][:rng.choice([1, 2])]
         h.atom('S', kw)
         if not h.dead:
             h.info(0)
